@@ -147,6 +147,8 @@ def make_feeds(feed_specs, seed):
                     a[...] = -np.inf
         elif kind == "int":
             a = rng.integers(-4, 5, size=shape)
+        elif kind == "fixed":  # run-time operands whose value the host depends on (shape operands)
+            a = np.asarray(extra["value"]).reshape(shape)
         else:
             raise ValueError(kind)
         feeds[name] = np.asarray(a).astype(dt)
@@ -965,12 +967,18 @@ def fused_matmul(draw):
 # ----------------------------------------------------------------------------- softmax fp32 upcast
 @st.composite
 def softmax_upcast(draw):
-    g = GB(draw, draw(st.sampled_from([13, 18, 20])))
+    legacy = draw(st.sampled_from([False, False, False, True]))
+    g = GB(draw, draw(st.sampled_from([11, 12] if legacy else [13, 18, 20, 11, 12])))  # (before opset 13 a Softmax without axis flattens to 2-D at axis 1)
     rank, shape, sshape, P = _act_shape(draw)
+    if legacy and rank < 3:
+        # by construction: an attribute-less Softmax of an old opset on a tensor of rank >= 3 (default axis 1 + flattening differs from -1 there)
+        rank, shape, sshape = 3, [2, 3, P["D"]], [2, 3, P["D"]]
+        P.update(rank=3, B=2, S=3, sym="static")
     nm = draw(st.sampled_from([None] * 5 + ["input_f32", "out_f32", "extra_consumer"]))
     in_dt = F32 if nm == "input_f32" else F16
     out_dt = F32 if nm == "out_f32" else F16
-    axis = draw(st.sampled_from([None, -1, -1, 0, rank - 1] + ([1] if rank > 1 else [])))
+    axis = None if legacy else draw(st.sampled_from([None, -1, -1, 0, rank - 1] + ([1] if rank > 1 else [])))
+    P["legacy_default_axis"] = legacy
     P.update({"near_miss": nm, "axis": axis, "opset": g.opset, "dtype": "float16"})
     x = g.inp("x", in_dt, sshape, shape, scale=3.0)
     up = g.op("Cast", x, to=TP.FLOAT)
@@ -1014,6 +1022,53 @@ def instance_to_group_norm(draw):
     return Host("instance_to_group_normalization", g, P, nm)
 
 
+# ----------------------------------------------------------------------------- shape pre-optimisation (ExtractDim)
+@st.composite
+def shape_extract_dim(draw):
+    """Slice(Shape(Transpose(Reshape(x, Concat(d0, d1, d2, d3)), perm=[0,2,1,3])), start, end): the pre-optimisation of fuse_xformers /
+    optimize_for_ort replaces it by the (permuted) dim operands.  That is only right when the Reshape target IS the result shape:
+    with allowzero absent/0 a target entry 0 copies the input dimension.  Dim operands are run-time inputs or constants."""
+    g = GB(draw, draw(st.sampled_from([18, 18, 20, 14])))
+    dims = [draw(st.sampled_from([1, 2, 3, 4])) for _ in range(4)]
+    allowzero = draw(st.sampled_from([1, 1, None, 0])) if g.opset >= 14 else None
+    target = [dims[0], dims[2], dims[1], dims[3]] if draw(st.booleans()) else list(dims)
+    zero_at = None
+    if allowzero != 1 and draw(st.sampled_from([True, True, False])):
+        cand = [i for i in range(4) if target[i] == dims[i]]  # a 0 entry copies dims[i]: legal exactly where the target keeps that dim
+        if cand:
+            zero_at = draw(st.sampled_from(cand))
+    sent = list(target)
+    if zero_at is not None:
+        sent[zero_at] = 0
+    nm = draw(st.sampled_from([None] * 6 + ["shape_start", "dim_rank0", "perm_other"]))
+    P = {"dims": dims, "target": sent, "allowzero": allowzero, "zero_at": zero_at, "opset": g.opset, "near_miss": nm, "dtype": "float32"}
+    x = g.inp("x", F32, dims, dims)
+    ops = []
+    srcs = []
+    for i, v in enumerate(sent):
+        src = draw(st.sampled_from(["input", "input", "const"]))
+        srcs.append(src)
+        if nm == "dim_rank0" and i == 1:
+            c = g.const(np.asarray(v, dtype=np.int64))
+            ops.append(g.op("Unsqueeze", c, g.i64([0])))
+        elif src == "input":
+            ops.append(g.inp(f"d{i}", np.int64, [1], [1], kind="fixed", value=[v]))
+        else:
+            ops.append(g.i64([v]))
+    P["dim_sources"] = srcs
+    shape = g.op("Concat", *ops, axis=0)
+    rs = g.op("Reshape", x, shape, **({} if allowzero is None else {"allowzero": allowzero}))
+    tr = g.op("Transpose", rs, perm=[0, 2, 1, 3] if nm != "perm_other" else [0, 1, 3, 2])
+    sh = g.op("Shape", tr, **({"start": 1} if nm == "shape_start" else {}))
+    start, end = draw(st.sampled_from([(0, 1), (1, 2), (1, 3), (2, 4), (0, 4), (3, 4), (2, 3), (1, 4), (0, 2 ** 63 - 1), (-1, 2 ** 63 - 1), (2, 2)]))
+    P["slice"] = [start, end]
+    fd = g.op("Slice", sh, g.i64([start]), g.i64([end]))
+    g.out(fd, np.int64, [None])
+    if draw(st.booleans()):
+        g.out(tr, F32, [None] * 4)
+    return Host("shape_optimization", g, P, nm)
+
+
 FAMILIES = {
     "rms_normalization": rms_norm,
     "skip_normalization": skip_norm,
@@ -1025,5 +1080,6 @@ FAMILIES = {
     "gqa": gqa,
     "fused_matmul": fused_matmul,
     "softmax": softmax_upcast,
+    "shape_optimization": shape_extract_dim,
     "instance_to_group_normalization": instance_to_group_norm,
 }
